@@ -405,7 +405,7 @@ def run(out_dir, tier='quick', seed=0, solver='z3', pieces=('rook', 'bishop'), n
             it = term(impl, defs)
             script = ['(set-logic ALL)', '(set-option :produce-models true)', '(declare-const occ (_ BitVec 64))'] + defs
             script.append('(assert (not (= %s %s)))' % (it, ray_ref(sq, dirs)))
-            script += ['(check-sat)', '(get-value (occ))']
+            script += ['(check-sat)']
             scripts.append('\n'.join(script) + '\n')
             specs.append((sq, impl, info))
             # translator validation: the emitted term evaluated on concrete occupancies = the native function
@@ -420,7 +420,12 @@ def run(out_dir, tier='quick', seed=0, solver='z3', pieces=('rook', 'bishop'), n
 
         def one(sc):
             try:
-                return solver_session(cmd, sc, per_query_timeout)
+                out, err, dt = solver_session(cmd, sc, per_query_timeout)
+                if out.strip().split('\n')[0:1] == ['sat']:
+                    # only a satisfiable query is asked for its model (get-value after unsat is an error in cvc5)
+                    out2, err2, dt2 = solver_session(cmd, sc + '(get-value (occ))\n', per_query_timeout)
+                    return out2, err2, dt + dt2
+                return out, err, dt
             except subprocess.TimeoutExpired:
                 return 'unknown\n', 'timeout', per_query_timeout
         with ThreadPoolExecutor(max_workers=jobs) as ex:
